@@ -51,6 +51,15 @@ CLAIMED = {
             "is chosen only for inputs starting with the zlib header; only the output of enc.decrypt is decompressed. Not decided: value-level "
             "round trip up to the limit (zlib reaches eof exactly at the limit: probed, trusted).",
             "zlib honours max_length and eof", "5/C17"),
+    "C15": ("static analysis: CFG must-pass-through of check_header around every algorithm lookup (per iteration in recipient loops), "
+            "sibling agreement of the three check_header implementations, folded header tables vs RFC tables, structural decision of the validators",
+            "Decides: at each of the 9 orchestration sites no signature/recipient can be processed to a normal completion without "
+            "registry.check_header on the same merged headers that name the algorithm (check_more=True on JWE consumption); each check_header "
+            "runs the crit check, required+type validation over the instance registry and - iff strict - the unknown-parameter check (JWE: plus "
+            "the algorithm's own table with the caller's check_more); the RFC 7797 override gates b64 on crit and delegates; the folded "
+            "parameter tables (JWS 11, JWE 13, 7797 b64, GCMKW/ECDH/PBES2/1PU specific) equal the RFC tables incl. required flags and validator "
+            "semantics; validate_registry_header / check_crit_header / check_supported_header raise as specified; caller registries are merged.",
+            "RFC parameter tables as transcribed in jv/spec/tables.py", "5/C15"),
 }
 
 NOT_YET = "check not built yet (build in progress; see DESIGN.md section 5 for the planned rules)"
